@@ -109,6 +109,61 @@ let string_of_zs l = if l = [] then "-" else String.concat "," (List.map string_
 let ns_of_string s = if s = "-" then [] else List.map (fun x -> cn_of_z (Z.of_string x)) (String.split_on_char ',' s)
 let string_of_ns l = if l = [] then "-" else String.concat "," (List.map string_of_cn l)
 
+(* ---- stream samples ---------------------------------------------------- *)
+let split c s = if s = "-" || s = "" then [] else String.split_on_char c s
+
+let layout_of s =
+  List.map (fun e -> match String.split_on_char ':' e with
+      | [ t; v; m; c ] -> { M.l_type = cz_of_string t; l_vdim = cz_of_string v; l_mlen = cz_of_string m; l_chan = cz_of_string c }
+      | _ -> failwith "layout") (split ';' s)
+
+let utable_of s =
+  List.map (fun e -> match String.split_on_char ':' e with
+      | [ t; slen; fmt; kind; u; sc ] ->
+        (cz_of_string t, ({ M.r_slen = cz_of_string slen; r_fmt = cstring_of (if fmt = "_" then "" else fmt);
+                            r_scale = (if sc = "N" then M.SNone else M.SInt (cz_of_string sc));
+                            r_kind = cz_of_string kind }, u = "1"))
+      | _ -> failwith "utable") (split ';' s)
+
+let is_nan32 b = let e = Z.logand (Z.shift_right b 23) (Z.of_int 255) and m = Z.logand b (Z.of_int 0x7fffff) in
+  Z.equal e (Z.of_int 255) && Z.sign m <> 0
+let is_nan64 b = let e = Z.logand (Z.shift_right b 52) (Z.of_int 2047) and m = Z.logand b (Z.pred (Z.shift_left Z.one 52)) in
+  Z.equal e (Z.of_int 2047) && Z.sign m <> 0
+
+let sval_str = function
+  | M.SVInt z -> "i" ^ string_of_cz z
+  | M.SVBool b -> if b then "b1" else "b0"
+  | M.SVF32 b -> let z = z_of_cn b in if is_nan32 z then "f32:nan" else "f32:" ^ Z.to_string z
+  | M.SVF64 b -> let z = z_of_cn b in if is_nan64 z then "f64:nan" else "f64:" ^ Z.to_string z
+  | M.SVDyad (n, e) -> "q" ^ string_of_cz n ^ "/" ^ string_of_cz e
+  | M.SVText cps -> "t" ^ String.concat "." (List.map string_of_cn cps)
+  | M.SVLossy -> "lossy"
+  | M.SVBytes b -> "x" ^ hex_of_bytes b
+  | M.SVUnmodelled -> "unmodelled"
+
+let sample_str (s : M.sample) =
+  Printf.sprintf "%s %s %s %s [%s] [%s]" (string_of_cz s.M.s_chan) (string_of_cz s.M.s_kind)
+    (string_of_cz s.M.s_vdim) (string_of_cz s.M.s_mlen)
+    (String.concat "," (List.map sval_str s.M.s_data)) (String.concat "," (List.map sval_str s.M.s_meta))
+
+let evalue_of (t : string) : M.evalue =
+  let body = String.sub t 1 (String.length t - 1) in
+  match t.[0] with
+  | 'i' -> M.EVInt (cz_of_string body)
+  | 'f' -> M.EVF32 (cn_of_z (Z.of_string body))
+  | 'd' -> M.EVF64 (cn_of_z (Z.of_string body))
+  | 'X' -> M.EVFix (cz_of_string body)
+  | 'T' -> M.EVText (List.map (fun x -> cn_of_z (Z.of_string x)) (split '.' body))
+  | 'B' -> M.EVBytes (bytes_of_hex (if body = "" then "-" else body))
+  | _ -> failwith "evalue"
+
+let esamples_of s =
+  List.map (fun e -> match String.split_on_char ':' e with
+      | [ c; t; v; m; vals; meta ] ->
+        { M.e_chan = cz_of_string c; e_type = cz_of_string t; e_vdim = cz_of_string v; e_mlen = cz_of_string m;
+          e_data = List.map evalue_of (split ',' vals); e_meta = List.map cz_of_string (split ',' meta) }
+      | _ -> failwith "esample") (split ';' s)
+
 (* ---- commands ------------------------------------------------------- *)
 let run (w : string list) : string =
   match w with
@@ -179,6 +234,22 @@ let run (w : string list) : string =
     res_to_string (function None -> "none"
                           | Some (st, r) -> (if st then "T " else "F ") ^ string_of_cz r)
       (M.frame_ack_decode (cz_of_string fid) (bytes_of_hex d))
+  | [ "stream_decode"; lay; user; d ] ->
+    res_to_string (function None -> "none"
+                          | Some (fl, ss) -> string_of_cz fl ^ " | " ^ String.concat " ; " (List.map sample_str ss))
+      (M.stream_decode (layout_of lay) (utable_of user) (bytes_of_hex d))
+  | [ "stream_encode"; user; ss ] ->
+    res_to_string (function None -> "none" | Some b -> hex_of_bytes b)
+      (M.frame_stream_encode (utable_of user) (esamples_of ss))
+  | [ "chan_derived"; typ ] ->
+    let r = M.chan_new (cz_of_string "0") (cz_of_string typ) (cz_of_string "1") (cstring_of "") false
+        (cz_of_string "0") (cz_of_string "0") in
+    String.concat " " (List.map (fun k -> match M.get r (cstring_of k) with Some v -> pyval v | None -> "missing")
+                         [ "_type"; "dtype"; "critical"; "type_res"; "is_valid"; "is_numerical" ])
+  | [ "dev_derived"; flags ] ->
+    let r = M.dev_new (cz_of_string "0") (cz_of_string flags) (cz_of_string "0") in
+    String.concat " " (List.map (fun k -> match M.get r (cstring_of k) with Some v -> pyval v | None -> "missing")
+                         [ "flags"; "div_supported"; "ack_supported" ])
   | _ -> "driver-error unknown-command"
 
 let () =
